@@ -1,6 +1,7 @@
 """Per-property configuration: which binary/flavour, how many cases, gates, evidence text."""
 
 RUNNER_TUS = {
+    'fuzz': ['fuzz_uci.cpp'],
     'runner': ['rc_driver.cpp', 'pbt_movegen.cpp', 'pbt_position.cpp', 'pbt_moves.cpp', 'exh_tables.cpp', 'pbt_eval.cpp', 'pbt_book.cpp', 'pbt_search.cpp', 'sched_uci.cpp', 'pbt_session.cpp'],
 }
 
@@ -279,7 +280,7 @@ PROPS['C06'] = dict(
 )
 
 PROPS['C10'] = dict(
-    level='exploration', engine='rapidcheck + libFuzzer',
+    level='exploration', engine='rapidcheck + libFuzzer', run_fn='run_c10', replay_fn='replay_c10',
     technique='structure-aware fuzzing of well-formed UCI sessions (rapidcheck tapes and coverage-guided libFuzzer over the same tape decoder) with AddressSanitizer / UndefinedBehaviorSanitizer as the oracle',
     level_text=('Well-formed UCI sessions are decoded from a choice tape (position startpos|fen + oracle-legal moves incl. long legal games of 700-1200 plies, go with depth 1-100 / nodes / movetime / clocks / infinite+stop / searchmoves, '
                 'moves, perft, printboard, hash, staticeval, uci, setoption with generated book files, ucinewgame) and fed to the in-process engine (reader thread + detached search thread) built with ASan + UBSan; '
@@ -288,8 +289,9 @@ PROPS['C10'] = dict(
     rule='evaluations = sessions executed. Non-trivial = distinct sessions that cross at least one buffer boundary (game >= 720 plies, go depth > 40, >= 128 legal moves, >= 9 pieces of a kind).',
     assumptions=['generated sessions are well-formed: legal positions and moves per the rules oracle, go only when a legal move exists, next command after bestmove'],
     quick=dict(cases=110, shards=16, scale=6,
+               fuzz_jobs=8, fuzz_runs=150,
                gates={'c10:boundary_depth_gt_40': 16, 'c10:boundary_heavy_position': 16, 'c10:go': 700, 'c10:game_ge_720_plies': 10, 'c10:depth_gt_40': 20, 'c10:ge9_of_a_kind': 10}, min_nontrivial=100),
-    thorough=dict(cases=1200, shards=16, scale=6, min_nontrivial=3000),
+    thorough=dict(cases=1200, shards=16, scale=6, min_nontrivial=3000, fuzz_jobs=16, fuzz_runs=5000),
 )
 
 HOOK_COMMITS = ['2ee17ca']
